@@ -162,15 +162,59 @@ func hasMultiMemberObject(v interface{}) bool {
 	return false
 }
 
-// modeFor: exact comparison unless the expression exposes the unspecified
-// iteration order of an object with more than one member (the document's or a
-// literal's / multi-select hash's).
+// modeFor: exact comparison, unless the expression exposes the unspecified
+// iteration order of an object (object wildcard, keys, values) and an object
+// with more than one member is around (in the document, a literal or a
+// multi-select hash): then only value-versus-error is compared, because what
+// consumes the exposed order (an index, a comparison, join, to_string, first
+// extremal element ...) can legitimately differ between two iterations.
 func modeFor(expr string, doc interface{}) string {
 	f := featuresOf(expr)
-	if f.orderExposing {
-		return "perm"
+	if !f.orderExposing {
+		return "exact"
+	}
+	if hasMultiMemberObject(doc) || exprHasMultiMemberObject(expr) {
+		return "kind"
 	}
 	return "exact"
+}
+
+func exprHasMultiMemberObject(expr string) bool {
+	defer func() { recover() }()
+	toks, err := jmespath.VerifTokens(expr)
+	if err != nil {
+		return true
+	}
+	for i, t := range toks {
+		switch t.TypeName {
+		case "tJSONLiteral":
+			var v interface{}
+			if json.Unmarshal([]byte(t.Value), &v) != nil || hasMultiMemberObject(v) {
+				return true
+			}
+		case "tLbrace":
+			depth := 0
+			for _, u := range toks[i:] {
+				if u.TypeName == "tLbrace" || u.TypeName == "tLbracket" || u.TypeName == "tLparen" || u.TypeName == "tFilter" {
+					depth++
+				}
+				if u.TypeName == "tRbrace" || u.TypeName == "tRbracket" || u.TypeName == "tRparen" {
+					depth--
+					if depth == 0 {
+						break
+					}
+				}
+				if u.TypeName == "tComma" && depth == 1 {
+					return true
+				}
+			}
+		case "tUnquotedIdentifier":
+			if t.Value == "merge" {
+				return true
+			}
+		}
+	}
+	return false
 }
 
 func (r *Run) corpusSearch(family string, want func(exprFeatures) bool) {
@@ -187,6 +231,9 @@ func (r *Run) corpusSearch(family string, want func(exprFeatures) bool) {
 func (r *Run) treeCases(family string, n int, feat Features, depth int) {
 	g := &Gen{rng: r.rng, feat: feat}
 	for i := 0; i < n; i++ {
+		// where object iteration order can be exposed, half of the documents have only
+		// one-member objects, so that the comparison stays exact
+		g.thin = feat.Proj && !feat.OrderFree && i%2 == 0
 		doc := g.rootDoc()
 		t := g.expr(0, depth, hAny, doc)
 		text := t.text(textOpts{rng: r.rng, spaces: r.rng.Intn(3) == 0})
@@ -233,7 +280,7 @@ func famC02(r *Run) {
 	r.treeCases("G-expr-proj-order-free", r.n(500, 8000), Features{Proj: true, Paren: true, Logic: true, OrderFree: true, Funcs: true}, 4)
 	r.treeCases("G-expr-proj-funcs", r.n(700, 10000), Features{Proj: true, Paren: true, Logic: true, Funcs: true}, 4)
 	// right-hand sides that turn null into something: every element counts
-	g := &Gen{rng: r.rng, feat: Features{Proj: true}}
+	g := &Gen{rng: r.rng, feat: Features{Proj: true}, thin: true}
 	for i := 0; i < r.n(150, 2000); i++ {
 		doc := g.rootDoc()
 		rhs := []*Ex{
@@ -450,7 +497,10 @@ func (r *Run) mutate(s string) string {
 func famC05(r *Run) {
 	g := &Gen{rng: r.rng, feat: Features{Proj: true, Logic: true, Funcs: true, BadCalls: true, Paren: true, Hostile: true}}
 	for _, e := range loadVerifCorpus("hostile.jsonl") {
-		r.addSearch("corpus", e, g.rootDoc(), "perm")
+		{
+			d := g.rootDoc()
+			r.addSearch("corpus", e, d, modeFor(e, d))
+		}
 	}
 	var seeds []string
 	for _, c := range loadCompliance() {
@@ -458,16 +508,22 @@ func famC05(r *Run) {
 	}
 	seeds = append(seeds, loadFuzzCorpus()...)
 	for i := 0; i < r.n(400, 8000); i++ {
-		r.addSearch("G-bytes-random", r.randomBytes(1+r.rng.Intn(24)), g.rootDoc(), "perm")
+		{
+			e, d := r.randomBytes(1+r.rng.Intn(24)), g.rootDoc()
+			r.addSearch("G-bytes-random", e, d, modeFor(e, d))
+		}
 	}
 	for i := 0; i < r.n(1200, 30000); i++ {
-		r.addSearch("G-bytes-mutated", r.mutate(seeds[r.rng.Intn(len(seeds))]), g.rootDoc(), "perm")
+		{
+			e, d := r.mutate(seeds[r.rng.Intn(len(seeds))]), g.rootDoc()
+			r.addSearch("G-bytes-mutated", e, d, modeFor(e, d))
+		}
 	}
 	for i := 0; i < r.n(900, 15000); i++ {
 		doc := g.rootDoc()
 		t := g.expr(0, 4, hAny, doc)
 		text := t.text(textOpts{rng: r.rng, spaces: r.rng.Intn(3) == 0})
-		r.addTree("G-expr-hostile", t, text, doc, "perm")
+		r.addTree("G-expr-hostile", t, text, doc, modeFor(text, doc))
 	}
 	// long inputs: Go side only (time and no panic); the model is not run on them
 	for i := 0; i < r.n(30, 400); i++ {
